@@ -3,6 +3,7 @@ sandbox decision functions into terms of Lib/PySbx.v; the generated Gen_sbx_src.
 `interpreted source term = model function` for every argument (see notes/C17.md)."""
 import hashlib
 import os
+import threading
 
 from . import lib
 
@@ -19,33 +20,82 @@ def _deps_digest():
     return h.hexdigest()
 
 
-def checked_obligation(ctx, name, text, n):
-    """ctx.coq_obligation with a content-addressed memo: the text is regenerated from the current source on
-    every run; when it is byte-identical to a text coqc accepted before (same compiled dependencies), the recorded
-    acceptance is reused instead of running coqc again.  Any change of the source or of the theories changes the
-    key and forces a real compile.  The memo is a development convenience and OFF unless VERIF_OBLIGATION_CACHE=1:
-    a registered check run has coqc accept every regenerated obligation again."""
+class _Pending:
+    """one regenerated file being compiled by coqc in a worker thread (the thread only waits for the coqc
+    subprocess; all bookkeeping on ctx happens in finish(), on the caller's thread, exactly as
+    lib.Ctx.coq_obligation does it).  Every obligation is compiled on every run - the thread only lets the
+    correspondence streams run meanwhile."""
+
+    def __init__(self, ctx, name, text, n):
+        self.ctx, self.name, self.n = ctx, name, n
+        self.vfile = os.path.join(ctx.bdir, name + ".v")
+        with open(self.vfile, "w") as f:
+            f.write(text)
+        self.result = None
+        self.thread = threading.Thread(target=self._work, daemon=True)
+        self.thread.start()
+
+    def _work(self):
+        try:
+            self.result = self.ctx._coqc(self.vfile, os.path.join(self.ctx.bdir, self.name + ".vo"), 600)
+        except BaseException as e:  # noqa: BLE001
+            self.result = (1, "", f"coqc could not be run: {e!r}")
+
+    def finish(self):
+        self.thread.join()
+        ctx, n = self.ctx, self.n
+        rc, out, err = self.result
+        ctx.obligations += n
+        ctx.obligation_names.append(f"{self.name} (regenerated, {n})")
+        if rc != 0:
+            ctx.broken.append(f"regenerated obligation {self.name} fails: " + (err.strip().splitlines() or ["?"])[-1][:300])
+            ctx.extra.setdefault("coq_errors", []).append(err[-2000:])
+            return False, out + err
+        ctx.discharged += n
+        return True, out
+
+
+def start_obligation(ctx, name, text, n):
+    """start compiling a regenerated file; returns finish() -> (ok, coqc output).  With the content-addressed
+    memo (a development convenience, OFF unless VERIF_OBLIGATION_CACHE=1; never in the thorough tier): when the
+    text is byte-identical to one coqc accepted before, against the same compiled dependencies, the recorded
+    acceptance is reused.  A registered check run has coqc accept every regenerated obligation again."""
     key = hashlib.sha1((text + "|" + _deps_digest()).encode()).hexdigest()
     stamp = os.path.join(ctx.bdir, name + ".accepted")
     if os.environ.get("VERIF_OBLIGATION_CACHE") == "1" and ctx.tier != "thorough" and os.path.exists(stamp):
         rec = open(stamp).read().split("\n", 1)
         if rec[0] == key:
-            ctx.obligations += n
-            ctx.discharged += n
-            ctx.obligation_names.append(f"{name} (regenerated, {n}; identical text accepted by coqc earlier, key {key[:12]})")
-            ctx.extra.setdefault("obligations_reused", []).append(name)
-            return True, rec[1] if len(rec) > 1 else ""
-    ok, out = ctx.coq_obligation(name, text, n_obligations=n)
-    if ok:
-        with open(stamp, "w") as f:
-            f.write(key + "\n" + out)
-    elif os.path.exists(stamp):
-        os.unlink(stamp)
-    return ok, out
+            def reused():
+                ctx.obligations += n
+                ctx.discharged += n
+                ctx.obligation_names.append(f"{name} (regenerated, {n}; identical text accepted by coqc earlier, key {key[:12]})")
+                ctx.extra.setdefault("obligations_reused", []).append(name)
+                return True, rec[1] if len(rec) > 1 else ""
+            return reused
+    pending = _Pending(ctx, name, text, n)
+
+    def finish():
+        ok, out = pending.finish()
+        if ok:
+            with open(stamp, "w") as f:
+                f.write(key + "\n" + out)
+        elif os.path.exists(stamp):
+            os.unlink(stamp)
+        return ok, out
+    return finish
+
+
+def checked_obligation(ctx, name, text, n):
+    return start_obligation(ctx, name, text, n)()
 
 
 def source_equations(ctx, want):
     """compile the equations of the wanted sections; True when they all check"""
+    return start_source_equations(ctx, want)()
+
+
+def start_source_equations(ctx, want):
+    """start compiling the equations of the wanted sections; returns finish() -> True when they all check"""
     from gen import sbx_translate
     names = [t for w in want for t in sbx_translate.THEOREMS[w]]
     try:
@@ -54,15 +104,25 @@ def source_equations(ctx, want):
         ctx.obligations += len(names)
         ctx.obligation_names.append(f"Gen_sbx_src (source = model, {len(names)})")
         ctx.broken.append(f"translator gen/sbx_translate.py: sandbox.py left the translatable vocabulary: {e}")
-        return False
-    ok, out = checked_obligation(ctx, "Gen_sbx_src", text, len(thms))
-    ctx.extra["source_equations"] = thms
-    if ok:
-        ctx.trusted.append("Gen_sbx_src (source term = model function: " + ", ".join(thms) + "): " + " ".join(sorted(set(out.split("\n")))).strip())
-    return ok
+        return lambda: False
+    return _finish_equations(ctx, start_obligation(ctx, "Gen_sbx_src", text, len(thms)), thms)
+
+
+def _finish_equations(ctx, pending, thms):
+    def finish():
+        ok, out = pending()
+        ctx.extra["source_equations"] = thms
+        if ok:
+            ctx.trusted.append("Gen_sbx_src (source term = model function: " + ", ".join(thms) + "): " + " ".join(sorted(set(out.split("\n")))).strip())
+        return ok
+    return finish
 
 
 def source_equations_paths(ctx):
+    return start_source_equations_paths(ctx)()
+
+
+def start_source_equations_paths(ctx):
     """C17: getattr / getitem equations + part 2 (unsafe_undefined, get_field, attrgetter, do_attr,
     _prepare_attribute_parts, Getattr.as_const, Getitem.as_const) in one generated file"""
     from gen import sbx_translate, sbx_translate2
@@ -73,15 +133,15 @@ def source_equations_paths(ctx):
         ctx.obligations += n
         ctx.obligation_names.append(f"Gen_sbx_src (source = model, {n})")
         ctx.broken.append(f"translator gen/sbx_translate2.py: the source left the translatable vocabulary: {e}")
-        return False
-    ok, out = checked_obligation(ctx, "Gen_sbx_src", text, len(thms))
-    ctx.extra["source_equations"] = thms
-    if ok:
-        ctx.trusted.append("Gen_sbx_src (source term = model function: " + ", ".join(thms) + "): " + " ".join(sorted(set(out.split("\n")))).strip())
-    return ok
+        return lambda: False
+    return _finish_equations(ctx, start_obligation(ctx, "Gen_sbx_src", text, len(thms)), thms)
 
 
 def routing_table(ctx):
+    return start_routing_table(ctx)()
+
+
+def start_routing_table(ctx):
     """C17 / C18: regenerated decision table of compiler.visit_Getattr / visit_Getitem / visit_Call"""
     from gen import sbx_route
     try:
@@ -90,6 +150,6 @@ def routing_table(ctx):
         ctx.obligations += 4
         ctx.obligation_names.append("Gen_sbx_route (regenerated, 4)")
         ctx.broken.append(f"translator gen/sbx_route.py: compiler.py visitors left the recognised emission vocabulary: {e}")
-        return False
-    ok, _ = checked_obligation(ctx, "Gen_sbx_route", text, 4)
-    return ok
+        return lambda: False
+    pending = start_obligation(ctx, "Gen_sbx_route", text, 4)
+    return lambda: pending()[0]
